@@ -191,9 +191,13 @@ class Tensor(Type):
         """
         # Try converting to a tensor type. If it fails, we allow the
         # exception to bubble up.
-        dtype_to_tensor_type(dtype)
+        tensor_type = dtype_to_tensor_type(dtype)
         rich_shape = Shape.from_simple(shape)
-        object.__setattr__(self, "_elem_type", np.dtype(dtype).type)
+        # Store the canonical scalar class of the ONNX element type: aliases such as
+        # ``np.longlong`` would otherwise compare unequal to the same type read back from ONNX.
+        object.__setattr__(
+            self, "_elem_type", tensor_type_to_dtype(tensor_type).type
+        )
         object.__setattr__(self, "_shape", rich_shape)
 
     @property
